@@ -231,7 +231,34 @@ def disk_prefix_law(ctx):
                 if got != few:
                     ctx.fail(["disk", "partial-entry-served", exc.__name__], "after a getter failed with %s after %d items the entry is served as %d of %d lines (getter re-run: %s)" % (exc.__name__, cut, len(got), len(few), bool(calls)), case)
                 dc.rmv("z")
+        # the WRITE fails (the file system refuses more than N bytes: a full disk or a quota) - for small entries that surfaces only when the file is flushed and closed
+        import resource
+        soft, hard = resource.getrlimit(resource.RLIMIT_FSIZE)
+        for name, entry in (("small", ["row %d %s" % (i, "y" * (i % 5)) for i in range(40)]), ("large", ["row %d %s" % (i, os.urandom(30).hex()) for i in range(2500)])):
+            with dc.get_set("w", lambda: iter(entry)) as f: size = os.path.getsize(os.path.join(d, "w.gz"))
+            dc.rmv("w")
+            limits = sorted({0, 1, 9, 10, 11, size // 3, size // 2, size - 9, size - 8, size - 1} if ctx.tier != "thorough" else set(range(0, size, max(1, size // 150))) | {size - 1})
+            for lim in [l for l in limits if 0 <= l < size]:
+                case = dict(what="the file system refuses to write more than N bytes", entry=name, bytes_of_the_entry=size, N=lim); ctx.count("disk-write-fault:" + name, lim, True)
+                raised = None
+                try:
+                    resource.setrlimit(resource.RLIMIT_FSIZE, (lim, hard))
+                    try: dc.get_set("w", lambda: iter(entry))
+                    finally: resource.setrlimit(resource.RLIMIT_FSIZE, (soft, hard))
+                except BaseException as e: raised = e
+                if raised is None: ctx.fail(["disk", "write-fault-unreported"], "writing a %d byte entry with room for %d bytes raised nothing" % (size, lim), case); dc.rmv("w"); continue
+                calls = []
+                def good(): calls.append(1); return iter(entry)
+                try:
+                    with dc.get_set("w", good) as f: got = [l.rstrip("\n") for l in f]
+                except BaseException as e:
+                    ctx.fail(["disk", "partial-entry-served", "write-fault", errname(e)], "after a write fault (%s) at %d of %d bytes the next get_set raised %s instead of computing the entry (getter re-run: %s)" % (errname(raised), lim, size, errname(e), bool(calls)), case); dc.rmv("w"); break
+                if got != entry:
+                    ctx.fail(["disk", "partial-entry-served", "write-fault"], "after a write fault (%s) at %d of %d bytes the entry is served as %d of %d lines (getter re-run: %s)" % (errname(raised), lim, size, len(got), len(entry), bool(calls)), case); dc.rmv("w"); break
+                dc.rmv("w")
     finally:
+        try: resource.setrlimit(resource.RLIMIT_FSIZE, (soft, hard))
+        except Exception: pass
         shutil.rmtree(d, ignore_errors=True)
 
 def memory_partial_law(ctx):
